@@ -148,6 +148,21 @@ def events_of_block(P, f, bi, groups):
     if re.search(r'Vec::<T, A>::push$', p) and len(args) == 2:
         ty = re.sub(r"'\w+ ?", '', t['args'][0].get('place', {}).get('ty', '')).replace('&mut ', '').replace('grammar::', '').replace('std::vec::', '')
         return [('push', ty, cons(args[1], f))]
+    if re.search(r'Extend<.*>>::extend$', p) and len(args) == 2:
+        # `v.extend(xs.into_iter().map(|x| build(x)))` is the loop `for x in xs { v.push(build(x)) }` when the closure only
+        # builds a value (no token events of its own): a push of what the closure returns, for each element
+        it = strip(args[1])
+        if it[0] == 'call' and it[3] == 'std::iter::Iterator::map' and strip(it[2][1])[0] == 'closure':
+            cf = P.fns.get(strip(it[2][1])[1])
+            if cf is not None and all(not events_of_block(P, cf, b_, []) for b_ in cf.normal_blocks()):
+                elem = 'Some!0(next(%s))' % cons(it[2][0], f)
+                alts = sorted({cons(x['expr'], cf).replace('arg2', elem) for x in cf.exits() if x['kind'] not in ('panic', 'diverge')})
+                rty = re.sub(r"'\w+ ?", '', cf.raw.get('output') or '').replace('grammar::', '').replace('std::vec::', '').replace('std::option::', '')
+                ty = re.sub(r"'\w+ ?", '', t['args'][0].get('place', {}).get('ty', '')).replace('&mut ', '').replace('grammar::', '').replace('std::vec::', '')
+                m_ = re.match(r'^Vec<(.*)>$', ty)
+                rty = rty or (m_.group(1) if m_ else '')
+                CONSUMED.add(cidn(cf.id))
+                return [('extend-push', ty, 'var:%s[%s]' % (rty[:40], '|'.join(alts)[:200]))]
     if re.search(r'AddAssign<.*>>::add_assign$|String::push_str$|String::push$', p) and len(args) == 2:
         return [('append', cons(args[1], f))]
     if p.startswith('grammar::') and re.search(r'::(push|join|insert)$', p):
@@ -234,6 +249,35 @@ def short_fn(p):
     return p
 
 
+PURE_EVENTS = ('peek', 'peek2', 'peek3', 'is_empty', 'yes', 'no', 'mode', 'append', 'push', 'trim', 'lit_value')
+
+
+def dedupe_peeks(p):
+    """`peek` is a pure query of the cursor: asked again before anything was consumed it gives the same answer.  A repeated
+    question whose answer agrees is dropped from the path; a path on which it disagrees cannot be taken (None)."""
+    known = {}
+    out = []
+    i = 0
+    while i < len(p):
+        e = p[i]
+        if e[0] in ('peek', 'peek2', 'peek3', 'is_empty') and i + 1 < len(p) and p[i + 1][0] in ('yes', 'no'):
+            ans = p[i + 1][0]
+            if e in known:
+                if known[e] != ans:
+                    return None
+                i += 2
+                continue
+            known[e] = ans
+            out += [e, p[i + 1]]
+            i += 2
+            continue
+        if e[0] not in PURE_EVENTS:
+            known = {}
+        out.append(e)
+        i += 1
+    return tuple(out)
+
+
 def grammar_of(P, f):
     """set of event paths of function f"""
     # group buffers: results of parse_braces/brackets/parens calls
@@ -256,13 +300,18 @@ def grammar_of(P, f):
                 ds = f.defs().get(x[1], [])
                 if 2 <= len(ds) <= 6:
                     here = [d for d in ds if d[0] in seen]
+                    # a definition inside a loop this path has entered may be the one that holds at the exit (an earlier
+                    # trip round the loop stored it): the value is then the merge of all its definitions, not the initial one
+                    if any(d[0] not in seen and any(h_ in seen and d[0] in body_ for (h_, body_, _l) in loops_) for d in ds):
+                        return x
                     if len(here) == 1:
                         return f.expr_of_def(here[0])
             return x
         return map_tree(e, one)
     # back edges
     back = set()
-    for (h, body, latches) in f.loops():
+    loops_ = list(f.loops())
+    for (h, body, latches) in loops_:
         for l in latches:
             back.add((l, h))
     paths = set()
@@ -374,6 +423,18 @@ def grammar_of(P, f):
             dfs(s, acc, seen | {s})
     sys.setrecursionlimit(20000)
     dfs(0, [], {0})
+    paths = {q for q in (dedupe_peeks(p) for p in paths) if q is not None}
+    # an `extend-push` stands for a loop: one path that pushes and goes round, one that leaves the loop
+    for _ in range(4):
+        nxt = set()
+        for p in paths:
+            i = next((i_ for i_, e_ in enumerate(p) if e_[0] == 'extend-push'), None)
+            if i is None:
+                nxt.add(p)
+            else:
+                nxt.add(p[:i] + (('push',) + p[i][1:], ('NEXT-ITERATION',)))
+                nxt.add(p[:i] + p[i + 1:])
+        paths = nxt
     return sorted(' '.join(fmt_ev(e) for e in p) for p in paths)
 
 
@@ -381,14 +442,20 @@ def fmt_ev(e):
     return e[0] + ('(' + ','.join(str(x) for x in e[1:]) + ')' if len(e) > 1 else '')
 
 
+CONSUMED = set()
+
+
 def extract(P):
     out = {}
+    CONSUMED.clear()
     for f in parser_fns(P):
         ps = grammar_of(P, f)
         # optional parse + match on its result, in the peek/parse spelling
         ps = [re.sub(r'optparse\((\w+),([^()]*(?:\([^()]*\))?[^()]*)\) ((?:(?!optparse|yes|no)\S+ )*?)yes', r'peek(\1,\2) yes parse(\1,\2) \3', p_) for p_ in ps]
         ps = [re.sub(r'optparse\((\w+),([^()]*(?:\([^()]*\))?[^()]*)\) ((?:(?!optparse|yes|no)\S+ )*?)no', r'peek(\1,\2) no \3', p_) for p_ in ps]
         out[cidn(f.id)] = sorted(set(re.sub(r' +', ' ', p_).strip() for p_ in ps))
+    for c_ in CONSUMED:
+        out.pop(c_, None)
     return specialise(separated_lists(out))
 
 
